@@ -8,9 +8,10 @@ def evStr : Event → String
   | .transferX f t a d => s!"TransferX({hexOf f},{hexOf t},{a},{hexOf d})"
   | .lock d f t a u => s!"Lock({hexOf d},{hexOf f},{hexOf t},{a},{u})"
 
-/-- sig: "alpha" | "-" | hex,hex,...   caller: hex | "-" -/
+/-- sig: "alpha" | "cmt" | "-" | hex,hex,...   caller: hex | "-" -/
 def parseEnv (sig caller : String) : Env :=
   if sig == "alpha" then ⟨[], parseHex caller, true⟩
+  else if sig == "cmt" then ⟨[], parseHex caller, false⟩   -- committee majority: not the Alphabet account
   else ⟨parseHexList sig, parseHex caller, false⟩
 
 def parseOp (ws : List String) : Option Op :=
